@@ -53,6 +53,7 @@ PROPS = {
                lambda c: sched.sched_handover(c, (sched.FB,)),
                lambda c: sched.sched_pair(c, (sched.FB,)),
                lambda c: sched.key_rebind(c, (sched.FB,)), interp.fb_epoch,
+               lambda c: sched.sched_span(c, (sched.FB,)), sched.step_bound_fb,
                integrator.buf_rules, integrator.last_row],
         decided=['the state at an epoch inside a sampling interval is predicted with the elapsed '
                  'fraction of the pending increment',
@@ -75,6 +76,7 @@ PROPS = {
                lambda c: sched.sched_progress(c, (sched.FF,)),
                lambda c: sched.sched_sibling(c, ('feedforward',)),
                lambda c: sched.sched_handover(c, (sched.FF,)),
+               lambda c: sched.sched_span(c, (sched.FF,)),
                lambda c: sched.sched_pair(c, (sched.FF,)),
                lambda c: sched.key_rebind(c, (sched.FF,)),
                sched.step_bound],
@@ -139,7 +141,8 @@ PROPS = {
                    'and "never larger than the prior" as numerical facts (they follow '
                    'algebraically)', 'inputs not modified: decided under C19 (PUR-ARG)']),
     'C08': dict(
-        rules=[kal.vl_rules, kal.q_psd, lambda c: dtype.dtype_inherit(c, ('kalman', 'filters')),
+        rules=[kal.vl_rules, kal.q_psd, layout.assembly,
+               lambda c: dtype.dtype_inherit(c, ('kalman', 'filters')),
                lambda c: sched.sched_handover(c, (sched.FB, sched.FF)),
                lambda c: sched.sched_progress(c, (sched.FB, sched.FF))],
         decided=['the step handed to the discretisation is the interval between the rows that are '
@@ -199,7 +202,9 @@ PROPS = {
                lambda c: sched.sched_handover(c, (sched.FF,)),
                lambda c: sched.sched_progress(c, (sched.FF,)),
                idxdom.idx_domain, sensor.sm_gate, layout.sd_transform, layout.ff_comp,
-               layout.result_form, lambda c: layout.res_collect(c, (sched.FF,)),
+               layout.result_form, lambda c: layout.res_collect(c, (sched.FF,)), layout.assembly,
+               lambda c: sched.sched_span(c, (sched.FF,)), lambda c: sched.avg_rate(c, (sched.FF,)),
+               lambda c: layout.init_state(c, (sched.FF,)),
                lambda c: interp.interp_rules(c, ('feedforward',))],
         decided=['every measurement sample is fused exactly once (epoch list de-duplicated, cursor pairing, no epoch overtaken: the C10 rules on the feedforward loop)',
                  'the epoch state is the interpolation between the bracketing rows with the elapsed fraction; propagation matrices at the mid-point state',
@@ -219,7 +224,9 @@ PROPS = {
                interp.interp_rules, interp.fb_epoch, layout.corr_pair,
                lambda c: sched.sched_epochs(c, (sched.FB, sched.FF)),
                lambda c: sched.sched_sibling(c, ('feedback', 'feedforward')),
-               integrator.last_row, smmodel.sm_model, layout.result_form, layout.res_collect],
+               integrator.last_row, smmodel.sm_model, layout.result_form, layout.res_collect,
+               layout.assembly, sched.sched_span, sched.avg_rate, sched.step_bound_fb,
+               sched.step_bound, layout.init_state],
         decided=['both filters fuse the same set of measurement samples: same epoch-list stages (merge, de-duplication, clip to [start, end], sentinel) in both loops',
                  'both filters reset both sensor models before any use (re-run reproducibility)',
                  'feedback effects (set_pva, update_estimates, correct) only inside the '
